@@ -55,6 +55,9 @@ Definition r17_months (u : tunit) (x k : Z) (add : bool) : list Z :=
   let r := if add then dt_add u x d else dt_sub u x d in
   match r, as_cr u x with
   | Ok y, Some c =>
+    if is_nat y then        (* result outside the i64 nanosecond range: NaT, no fields *)
+      c_int y ++ c_null ++ c_null ++ c_null ++ c_null ++ c_null
+    else
     let '(y', m', d') := add_months (cr_civil c) (if add then k else - k) in
     c_int y ++ c_int y' ++ c_int m' ++ c_int d' ++ c_int (cr_sod c) ++ c_int (cr_nanos c / unit_ns u)
   | Ok y, None => c_int y
@@ -112,6 +115,6 @@ Definition r17_trunc (u : tunit) (x m ns : Z) : list Z :=
   let r := dt_trunc u x (mktd m ns) in
   c_res r ++
   match r, trunc_spec u x m ns with
-  | Ok _, Some s => c_int s
+  | Ok y, Some s => if is_nat y then c_res r else c_int s     (* NaT: the multiple is not representable *)
   | _, _ => c_res r
   end.
